@@ -2,7 +2,7 @@ from _helpers import rapid, direct, fuzz
 
 PROPS = {
     "C01": dict(pkg="chain", level="exploration", stages=[
-        direct("preoak", "TestC01PreOak"),
+        direct("preoak", "TestC01PreOak", quick=dict(shards=5, timeout=900), thorough=dict(shards=12, timeout=3600)),
         rapid("rapid", "TestC01", dict(shards=16, checks=150), dict(shards=16, checks=5000, timeout=6000)),
     ]),
     "C17": dict(pkg="chain", level="exploration", stages=[
@@ -24,6 +24,7 @@ PROPS["C02"] = dict(pkg="chain", level="exploration", stages=[
 ])
 
 PROPS["C03"] = dict(pkg="chain", level="fault_enumeration", stages=[
+    direct("preoak", "TestC03PreOak"),
     rapid("rapid", "TestC03", dict(shards=16, checks=50), dict(shards=16, checks=1200, timeout=7000)),
 ])
 
@@ -48,6 +49,7 @@ PROPS["C05"] = dict(pkg="chain", level="exploration", stages=[
 ])
 
 PROPS["C04"] = dict(pkg="chain", level="exploration", stages=[
+    direct("preoak", "TestC04PreOak"),
     rapid("rapid", "TestC04", dict(shards=16, checks=120), dict(shards=16, checks=4000, timeout=7000)),
     rapid("concurrent", "TestC04Concurrent", dict(shards=8, checks=60), dict(shards=16, checks=400, timeout=7000)),
     rapid("concurrent-race", "TestC04Concurrent", dict(shards=8, checks=40), dict(shards=16, checks=150, timeout=7000), race=True, tiers=["thorough"]),
